@@ -125,7 +125,7 @@ var c07Templates = []string{
 	"CREATE USER $p WITH PASSWORD $q", "SELECT v INTO $p FROM m", "DROP DATABASE $p", "SELECT v FROM m WHERE x = $p AND y = $q", "SELECT v FROM m tz($p)", "SELECT $p, /re/ FROM m",
 	"SELECT v FROM db.$p.m", "SELECT v FROM db.$p", "SELECT v FROM db.rp.$p WHERE x = 1", "SELECT v FROM $p, $q", "SELECT v FROM m WHERE ($p)", "SELECT v FROM m WHERE x = $p OR $p", "SELECT $p + 1, 2 * $p FROM m", "SELECT v FROM m ORDER BY $p",
 	"SELECT v AS $p FROM m", "SELECT v FROM (SELECT $p FROM m)", "SHOW MEASUREMENTS WITH MEASUREMENT = $p", "SHOW MEASUREMENTS WITH MEASUREMENT =~ $p", "DELETE FROM $p WHERE host = $q",
-	"SELECT v FROM m WHERE x = $", "SELECT v FROM m WHERE x = $unbound", "SELECT $\"quoted name\" FROM m", "SELECT v FROM m fill($p)", "SET PASSWORD FOR $p = $q",
+	"SELECT $\"$p\" FROM m", "SELECT v FROM m WHERE x = $\"$$p\" AND y = $\"p\"", "SELECT v FROM m WHERE x = $\"\"", "SELECT v FROM m WHERE x = $", "SELECT v FROM m WHERE x = $unbound", "SELECT $\"quoted name\" FROM m", "SELECT v FROM m fill($p)", "SET PASSWORD FOR $p = $q",
 	"SELECT v FROM m LIMIT $p", "KILL QUERY $p", "CREATE RETENTION POLICY rp ON db DURATION $p REPLICATION 1", "SELECT v FROM m WHERE x =~ $p OR y =~ /z/", "$p", "SELECT v FROM m; $p",
 }
 
@@ -164,12 +164,28 @@ func c07One(o *out, tmpl string, params map[string]interface{}, tag string) {
 		o.fail("", fmt.Sprintf("ParseStatement(%q) with %v panics: %v", tmpl, params, pn), rp)
 		return
 	}
+	// every placeholder the statement was accepted with must have been bound under exactly its name
+	if err == nil && !strings.Contains(tmpl, ";") {
+		sc := influxql.NewScanner(strings.NewReader(tmpl))
+		for i := 0; i < len(tmpl)+2; i++ {
+			tok, _, lit := sc.Scan()
+			if tok == influxql.EOF {
+				break
+			}
+			if tok == influxql.BOUNDPARAM {
+				name := strings.TrimPrefix(lit, "$")
+				if _, ok := params[name]; !ok || name == "" {
+					o.fail("", fmt.Sprintf("%q is accepted with %v although the placeholder %q is not bound", tmpl, params, lit), rp)
+				}
+			}
+		}
+	}
 	// inlining: whenever the bound values can be written as literals at the placeholders' positions (the inlined
 	// text is accepted), the result equals parsing the text with the literals written out
 	inl := tmpl
 	okAll := true
 	for name, v := range params {
-		if !strings.Contains(tmpl, "$"+name) {
+		if name == "" || strings.HasPrefix(name, "$") || !strings.Contains(tmpl, "$"+name) {
 			continue
 		}
 		sp, ok := inlineSpelling(influxql.BindValue(v))
@@ -289,6 +305,9 @@ func propC07(o *out, r *rng, thorough bool) {
 			for _, s := range hostileStrings {
 				c07Payload(o, t, s)
 			}
+			c07One(o, t, map[string]interface{}{"$p": int64(5), "p": "plain"}, "dollar-name")
+			c07One(o, t, map[string]interface{}{"$p": int64(5)}, "dollar-name")
+			c07One(o, t, map[string]interface{}{"": "empty", "$": "dollar"}, "dollar-name")
 			c07One(o, t, nil, "unbound")
 			c07One(o, t, map[string]interface{}{"other": int64(1)}, "unbound")
 		}
